@@ -102,7 +102,10 @@ def qb_menu(cls):
         step("do_update", args(S(st.sampled_from(["a", "b"]).map(py), gen.col(K)), S(st.just(py(None)), gen.raw_value(), gen.term(K, 2)))),
         step("do_update", args(st.sampled_from(["a", "b"]).map(py))),
         step("union", args(SUBQ)), step("union_all", args(SUBQ)), step("intersect", args(SUBQ)), step("except_of", args(SUBQ)), step("minus", args(SUBQ)),
-        step("replace_table", args(src(), src())),
+        # the table to replace is usually the one the roots are built on, so that the call has something to do
+        step("replace_table", args(src(("T", "T", "T") + K), src())),
+        step("replace_table", args(src(("T",)), src(("U", "V", "Y")))),
+        step("replace_table", args(src(("T",)), src(("U", "V", "Y")))),
         step("as_", args(st.sampled_from(["qa", "qb"]).map(py))),
     ]
     if cls == "mysql":
@@ -217,7 +220,7 @@ def root(draw, family):
     if family.startswith("qb:"):
         cls = family[3:]
         entry = draw(st.sampled_from(["select", "select", "insert", "update", "delete", "empty"]))
-        k = draw(st.sampled_from(K))
+        k = draw(st.sampled_from(("T", "T", "T") + K))
         if entry == "select":
             steps = [["from_", [["src", k]]], ["select", [["col", k, "a"], ["as", ["col", k, "b"], "al1"]]]]
         elif entry == "insert":
@@ -230,6 +233,14 @@ def root(draw, family):
             steps = [["from_", [["src", k]]]]
         extra = draw(st.lists(one_of_steps(qb_menu(cls)), min_size=0, max_size=4))
         extra = [e for e in extra if result_family(family, e) == family]
+        if cls == "postgresql" and draw(st.integers(0, 2)) == 0:
+            # the PostgreSQL-only clauses, populated
+            if entry in ("insert", "update", "delete"):
+                extra.append(["returning", [["col", k, "id"], ["col", k, "b"]]])
+            elif entry == "select":
+                extra.append(["distinct_on", [["col", k, "a"]]])
+        if entry == "update" and draw(st.integers(0, 2)) == 0:
+            extra.append(["from_", [["src", "U" if k != "U" else "V"]]])
         return {"cls": cls, "sources": {}, "steps": steps + extra}
     if family == "setop":
         cls = draw(st.sampled_from(QB_CLASSES))
